@@ -178,6 +178,23 @@ def sites():
         'ground/x/insulation_inside_wire': ('ground', ['--insulation-load=0.001,3']),
         'ground/x/second_skin_load': ('ground', ['--skin-effect-resistivity=1e-7']),
         'media/x/nf_point_on_wire': ('media', ['--near-field=0,0,6,1,1,1,1,1,1']),
+        # two degenerate fields of ONE option / options that only fail together (found by probing sub-agents)
+        'media/x/nf_point_zero_inc_negative_count': ('media', ['--near-field=2,3,1,0,0,0,-1,1,1']),
+        'media/x/nf_point_zero_inc_zero_count': ('media', ['--near-field=2,3,1,0,1,1,0,1,1']),
+        'media/x/nf_point_negative_count': ('media', ['--near-field=2,3,1,1,1,1,-1,1,1']),
+        'free/x/one_segment_wire_tapered': ('free', ['-w', '1,0,0,20,0,0,21,0.001', '--taper-wire=2,1']),
+        'free/x/one_segment_wire_tapered_both': ('free', ['-w', '1,0,0,20,0,0,21,0.001', '--taper-wire=2,3']),
+        'free/x/fat_short_wire_tapered': ('free', ['-w', '10,0,0,20,1,0,20,0.05', '--taper-wire=2,1']),
+        'free/x/laplace_zero_denominator': ('free', ['--laplace-load-a=0', '--laplace-load-b=1', '--attach-load=1,1']),
+        'free/x/laplace_zero_denominator_2': ('free', ['--laplace-load-a=0,0', '--laplace-load-b=1,2', '--attach-load=1,1']),
+        'free/x/laplace_zero_numerator': ('free', ['--laplace-load-a=1', '--laplace-load-b=0', '--attach-load=1,1']),
+        'free/x/basic_input_mixed_loads': ('free', ['--load=50', '--rlc-load=2,1e-6,2e-10', '--attach-load=1,1', '--attach-load=2,2',
+                                                    '--output-basic-input=@TMP@']),
+        'free/x/basic_input_plain': ('free', ['--load=50', '--attach-load=1,1', '--output-basic-input=@TMP@']),
+        'free/x/cmdline_output_repeated_attach': ('free', ['--load=50', '--attach-load=1,1', '--attach-load=1,1', '--output-cmdline=@TMP@']),
+        'free/x/closed_arc_on_wire_end': ('free', ['-w', '9,5,2,0,20,1,0,20,0.001', '-a', '10,8,1,0,360,0.001',
+                                                   '--geo-translate=0,0,0,20,10']),
+        'curves/x/equal_keys_same_kind': ('curves', ['--geo-translate=7,0,0,1', '--geo-translate=7,0,0,1']),
         'media/x/radials_no_radius': ('media', None),
     }
     for sid, (bname, add) in extra.items():
